@@ -513,6 +513,10 @@ var leafKinds = []skKind{
 	// calls of functions whose bodies contain loops / branches of their own (loop flags, labels and
 	// helper state of a callee must not interfere with the caller's constructs)
 	{name: "call-lf-three"}, {name: "call-lf-cond"}, {name: "call-lf-bare"}, {name: "call-lf-nested"}, {name: "call-lf-branch"},
+	// jumps placed ANYWHERE below a loop (in a branch of a chain, in a switch case, at any depth): a continue
+	// refers to the nearest loop through every if and switch; a break likewise through every if (a break inside a
+	// switch is excluded as undefined, the leaf is a plain statement there, and outside any loop)
+	{name: "jump-continue"}, {name: "jump-break"}, {name: "jump-continue-bare"},
 }
 
 // skLoopFuncs are the callee definitions used by the call-lf-* kinds.
@@ -585,7 +589,7 @@ func fullKinds() []skKind {
 }
 
 func controlKinds() []skKind {
-	ks := []skKind{ifKinds[0], ifKinds[3], switchKinds[2], {name: "call-lf-cond"}, {name: "call-lf-three"}}
+	ks := []skKind{ifKinds[0], ifKinds[3], switchKinds[2], {name: "call-lf-cond"}, {name: "call-lf-three"}, {name: "jump-continue"}, {name: "jump-break"}}
 	ks = append(ks, forKinds([]string{"three"}, []string{"", "break-start", "continue-end"})...)
 	ks = append(ks, forKinds([]string{"cond"}, []string{"", "continue-start"})...)
 	ks = append(ks, forKinds([]string{"bare"}, []string{"", "break-end"})...)
@@ -679,6 +683,31 @@ type skBuilder struct {
 	nextCtr    int
 	nextSimple int
 	nextCond   int
+	loops      []skLoopCtx // enclosing loops of the position being built, innermost last
+}
+
+// skLoopCtx describes an enclosing loop for the jump leaves (continue / break placed anywhere below a loop).
+type skLoopCtx struct {
+	ctr   string
+	step  []Stmt // the manual increment of a loop form without a post clause (must precede a continue)
+	idx   int    // index of the loop in rec.constructs
+	inner []string
+	sw    int // switches entered since the loop (a break there would leave the switch: excluded as undefined)
+}
+
+// jumpIf emits `if cond { marker; [step;] continue|break }` for the loop lc; the marker in front of the jump lets
+// C16 locate the emitted jump.
+func (b *skBuilder) jumpIf(lc skLoopCtx, cond Expr, kind string) Stmt {
+	lo := b.nextMarker + 1
+	m := b.marker(lc.inner)
+	if b.rec != nil {
+		b.rec.constructs = append(b.rec.constructs, skConstruct{name: "jump-if", lo: lo, hi: b.nextMarker})
+		b.rec.jumps = append(b.rec.jumps, skJump{marker: b.nextMarker, kind: kind, loop: lc.idx})
+	}
+	if kind == "break" {
+		return If{Cond: cond, Then: []Stmt{m, Break{}}}
+	}
+	return If{Cond: cond, Then: append(append([]Stmt{m}, lc.step...), Continue{})}
 }
 
 var simpleCycle = []func() Stmt{
@@ -765,7 +794,28 @@ func (b *skBuilder) nodeInner(n skNode, ctrs []string, inLoop bool) []Stmt {
 	k := n.kind
 	blk := func(i int) []Stmt { return b.block(n.kids[i], ctrs, inLoop) }
 	s := subject(ctrs)
+	if strings.HasPrefix(k.name, "sw-") && len(b.loops) > 0 {
+		b.loops[len(b.loops)-1].sw++
+		defer func() { b.loops[len(b.loops)-1].sw-- }()
+	}
 	switch {
+	case strings.HasPrefix(k.name, "jump-"):
+		if len(b.loops) == 0 {
+			return []Stmt{b.simple()}
+		}
+		lc := b.loops[len(b.loops)-1]
+		switch k.name {
+		case "jump-continue":
+			return []Stmt{b.jumpIf(lc, eqc(Var{lc.ctr}, 1), "continue")}
+		case "jump-break":
+			if lc.sw > 0 {
+				return []Stmt{b.simple()}
+			}
+			return []Stmt{b.jumpIf(lc, eqc(Var{lc.ctr}, 2), "break")}
+		}
+		// an unconditional continue as a statement of its own (whatever follows it in the block is never run)
+		j := b.jumpIf(lc, BoolLit{true}, "continue").(If)
+		return j.Then
 	case k.name == "if":
 		return []Stmt{If{Cond: b.cond(ctrs), Then: blk(0)}}
 	case k.name == "if-else":
@@ -856,18 +906,8 @@ func (b *skBuilder) loop(n skNode, ctrs []string) []Stmt {
 		b.rec.constructs = append(b.rec.constructs, skConstruct{name: k.name, loop: true})
 	}
 	// every break/continue is preceded by its own marker, so the emitted jump can be located
-	jumpIf := func(cond Expr, kind string) Stmt {
-		lo := b.nextMarker + 1
-		m := b.marker(inner)
-		if b.rec != nil {
-			b.rec.constructs = append(b.rec.constructs, skConstruct{name: "jump-if", lo: lo, hi: b.nextMarker})
-			b.rec.jumps = append(b.rec.jumps, skJump{marker: b.nextMarker, kind: kind, loop: loopIdx})
-		}
-		if kind == "break" {
-			return If{Cond: cond, Then: []Stmt{m, Break{}}}
-		}
-		return If{Cond: cond, Then: append(append([]Stmt{m}, step()...), Continue{})}
-	}
+	lc := skLoopCtx{ctr: c, step: step(), idx: loopIdx, inner: inner}
+	jumpIf := func(cond Expr, kind string) Stmt { return b.jumpIf(lc, cond, kind) }
 	if !hasCond {
 		body = append(body, jumpIf(Binary{Op: ">=", L: Var{c}, R: IntLit{3}}, "break"))
 	}
@@ -878,7 +918,9 @@ func (b *skBuilder) loop(n skNode, ctrs []string) []Stmt {
 	case "continue-start":
 		body = append(body, jumpStmt("continue"))
 	}
+	b.loops = append(b.loops, lc)
 	body = append(body, b.block(n.kids[0], inner, true)...)
+	b.loops = b.loops[:len(b.loops)-1]
 	switch k.jump {
 	case "break-end":
 		body = append(body, jumpStmt("break"))
